@@ -6,7 +6,7 @@ Oracle  : vf.oracle_c18_sem.judge on shadow terms - Z3 searches a counter-model 
           H_res /\\ premise sequents /\\ ~C ; the model is re-evaluated by an independent evaluator when
           quantifier-free (or quantifiers range over the model's finite universes).  Truth tables for the
           end-to-end propositional proofs.  Hypotheses of a result must come from the premises.
-Workload: vf.oracle_c18_gen - correct template instances of ~85 Alethe rules over random atoms/terms, each followed
+Workload: vf.oracle_c18_gen - correct template instances of 87 Alethe rule names (82 macros) over random atoms/terms, each followed
           by near-miss mutations; synthetic assume/step proofs written as Alethe text, parsed by the repo's parser
           and run through the real ProofReconstruction.validate(is_eval=True).
 """
@@ -38,10 +38,10 @@ ASSUMPTIONS = ['no veriT binary and no recorded proof files in the repository (s
                'Z3 runs under a deterministic resource limit (rlimit), plus a 20 s safety timeout whose expiry yields unknown',
                'a macro returning None (no theorem) is counted as returned_none, not as an acceptance']
 REQUIRED = {'quick': {'rules_accepted_on_correct_instance': 50, 'accepted_judged': 1800, 'rejected': 3500,
-                      'nearmiss_accepted_judged': 300, 'oracle:held': 1600, 'e2e_scripts_validated': 120,
+                      'nearmiss_accepted_judged': 150, 'oracle:held': 1600, 'e2e_scripts_validated': 120,
                       'e2e_steps_accepted': 900},
             'thorough': {'rules_accepted_on_correct_instance': 50, 'accepted_judged': 40000, 'rejected': 100000,
-                         'nearmiss_accepted_judged': 8000, 'oracle:held': 35000, 'e2e_scripts_validated': 3000,
+                         'nearmiss_accepted_judged': 5000, 'oracle:held': 35000, 'e2e_scripts_validated': 3000,
                          'e2e_steps_accepted': 20000}}
 SHARD_TIMEOUT = {'quick': 600, 'thorough': 3600}
 
@@ -62,7 +62,7 @@ def shards(tier, seed):
         for i in range(nr):
             out.append({'kind': 'rules', 'rules': rules[i::nr], 'per': per, 'muts': muts, 'count_rules': True, 'i': i})
         for i in range(4):
-            out.append({'kind': 'e2e', 'scripts': 50, 'i': i})
+            out.append({'kind': 'e2e', 'scripts': 40, 'i': i})
     else:
         nr, reps = 16, 4
         for rep in range(reps):
@@ -148,7 +148,7 @@ class Monitor:
                 continue        # no eval of its own (proof-term only helper)
             self._wrap(name, macro)
             self.installed.append(name)
-        self.ctx.count('macros_hooked', 0)
+            self.ctx.count('hooked:' + name)
 
     def _wrap(self, name, macro):
         orig = macro.eval
@@ -796,14 +796,15 @@ def replay(ctx, rec):
 
 
 def coverage_extra(counters, tier):
-    hooked = sorted(k[4:] for k in counters if k.startswith('acc:') or k.startswith('rej:') or k.startswith('none:'))
+    hooked = sorted(set(k[7:] for k in counters if k.startswith('hooked:')))
     acc = sorted(set(k[4:] for k in counters if k.startswith('acc:')))
-    seen = sorted(set(hooked))
+    called = sorted(set(k.split(':', 1)[1] for k in counters if k.startswith(('acc:', 'rej:', 'none:'))))
     never = sorted(k[len('rule_never_accepted:'):] for k in counters if k.startswith('rule_never_accepted:'))
-    return {'macros_called': len(seen), 'macros_accepting_at_least_once': acc,
-            'macros_called_but_never_accepting': sorted(set(seen) - set(acc)),
+    return {'macros_hooked': len(hooked), 'macros_accepting_at_least_once': len(acc),
+            'macros_not_exercised_(never_accepted)': sorted(set(hooked) - set(acc)),
+            'macros_never_called': sorted(set(hooked) - set(called)),
             'template_rules_never_accepted_on_a_correct_instance': never,
-            'per_macro_accept_reject': {m: [counters.get('acc:' + m, 0), counters.get('rej:' + m, 0)] for m in seen}}
+            'per_macro_accept_reject': {m: [counters.get('acc:' + m, 0), counters.get('rej:' + m, 0)] for m in hooked}}
 
 
 def _macro_base():
